@@ -46,6 +46,14 @@ RULE = (
     "moment (np.array of the object); a VisibilitiesNoiseMap (and the data) edited in place after being read / after a "
     "first inversion, plus derived noise maps (multiple, copy-then-edit), then D and F of a new inversion "
     "(DatasetInterface, or an Interferometer built before the edit) against the Gram products of the current values. "
+    "large (enumerated, seed-independent): 1-3 unmasked pixels and 131073 / 100001 baselines in quick, additionally "
+    "65535, 65536, 65537, 99999, 100000, 100001, 131073, 262145 in thorough (Kronecker-sequence baselines up to 9e5 "
+    "wavelengths with a zero and a repeated baseline inside, closed-form visibilities; one path per case, preload on "
+    "and off over the list): visibilities_from, transform_mapping_matrix (1-2 columns) and image_from against the "
+    "float64 dense operator at 1e-12 of the summed magnitudes. Keyword parameters the default call never sets: "
+    "image_from(use_adjoint_scaling=) is drawn from {not passed, False, True} in transform, state and large - the "
+    "statement has no such qualifier and the DFT class neither documents nor applies a scaling, so every value must "
+    "give Re(A^H V). "
     "Direct calls of internal kernels are bound to the kernel's current signature first; a kernel that is missing or "
     "cannot be bound is labelled util-signature-changed and that comparison is skipped. Non-trivial = at "
     "least two distinct non-zero baselines and a mask with both masked and unmasked pixels (matrix: additionally a "
@@ -62,6 +70,8 @@ ASSUMPTIONS = [
     "state shared between transformers can only be observed within one process: the family sub-check puts the whole sequence inside one case so a failing case replays in a fresh process; a failure reported by another sub-check under such a change may depend on earlier cases of the same worker",
     "internal kernels (autoarray.operators.transformer_util, inversion_interferometer_util) are not part of the property's public surface: their direct comparisons are extra sensitivity only and are skipped (label util-signature-changed, counted in the label histogram) when the kernel cannot be called with the keyword names the check knows; TransformerDFT methods and inversion quantities decide the property",
     "the state sub-check takes np.array(object) as the values an object currently holds; it does not judge the semantics of __setitem__ / slicing (views) themselves, nor the staleness of the object's own cached attributes (amplitudes, ordered_1d) - only what image_from and the inversion make of the object",
+    "use_adjoint_scaling: TransformerNUFFT.image_from multiplies by adjoint_scaling when set (to undo the NUFFT adjoint's normalisation); TransformerDFT.image_from ignores the flag and has no docstring saying otherwise - its sum already is the exact conjugate-transpose operator - so for the DFT class the flag is required to be a no-op",
+    "large sub-check: tolerance 1e-12 relative to the summed magnitudes (|phase| <= ~100 rad; observed error ~1e-14); cases are a fixed list, not seed-dependent, because one case costs 2-6 s of pure-Python kernel loops",
     "TransformerNUFFT, the w-tilde interferometer path and the PyLops linear-operator inversion are out of scope (external library / stubbed code)",
 ]
 TECHNIQUE = ("property-based testing (Hypothesis) against a dense closed-form Fourier operator in numpy, with "
@@ -122,6 +132,8 @@ def transform_case(draw):
     h, w = len(c["mask"]), len(c["mask"][0])
     c["image_native"] = draw(st.lists(gens.reals(-10, 10), min_size=h * w, max_size=h * w))
     c["vis"] = _complex_list(draw, len(c["uv"]))
+    # keyword parameters of the public methods that the default call never sets: [preload path, direct path]
+    c["adjoint_flag"] = [draw(st.sampled_from([None, False, True, True])) for _ in range(2)]
     return c
 
 
@@ -293,7 +305,9 @@ def body_transform(case, ctx):
                       what="visibilities_from(native-stored image) vs A I")
         # adjoint
         vobj = aa.Visibilities(visibilities=vis.copy())
-        im = t.image_from(visibilities=vobj)
+        flag = case.get("adjoint_flag", [None, None])[0 if preload else 1]
+        ctx.label("adjoint-flag:%s" % flag)
+        im = t.image_from(visibilities=vobj, **({} if flag is None else {"use_adjoint_scaling": bool(flag)}))
         ctx.check(isinstance(im, aa.Array2D), "image_from/type", "image_from does not return an Array2D")
         ctx.close(np.asarray(im.slim), want_img, "image_from/slim", atol=1e-9 * s_vis,
                   what="image_from(V).slim vs Re(A^H V) (%s)" % path)
@@ -832,6 +846,7 @@ def state_case(draw):
     vals = draw(st.lists(gens.reals(-10, 10, allow_zero=False), min_size=2 * k, max_size=2 * k))
     c["vis"] = [[vals[2 * i], vals[2 * i + 1]] for i in range(k)]
     c["preload"] = draw(st.booleans())
+    c["adjoint_flag"] = draw(st.sampled_from([None, None, False, True, True]))
     ops = [{"op": "read", "what": w_} for w_ in draw(st.lists(st.sampled_from(READS), min_size=0, max_size=3))]
     if draw(st.integers(0, 3)) > 0:
         ops.append({"op": "image"})
@@ -888,7 +903,8 @@ def body_state(case, ctx):
     m, uv, mask, grid_ref, a, _ = _setup(case, ctx)
     k = len(uv)
     preload = bool(case["preload"])
-    ctx.label("path:%s" % ("preload" if preload else "direct"))
+    ctx.label("path:%s" % ("preload" if preload else "direct"), "adjoint-flag:%s" % case.get("adjoint_flag"))
+    flag_kw = {} if case.get("adjoint_flag") is None else {"use_adjoint_scaling": bool(case["adjoint_flag"])}
     transformers = {}
 
     def transformer_for(sel):
@@ -899,7 +915,7 @@ def body_state(case, ctx):
 
     def check_image(obj, sel, key, what):
         cur = np.array(obj, dtype=complex).copy()     # the values the object holds now
-        im = transformer_for(sel).image_from(visibilities=obj)
+        im = transformer_for(sel).image_from(visibilities=obj, **flag_kw)
         s_ = float((np.abs(cur.real) + np.abs(cur.imag)).sum()) + FLOOR
         ctx.close(np.asarray(im.slim), dft.adjoint_real(a[list(sel)], cur), key, atol=1e-9 * s_,
                   what="image_from(V) vs Re(A^H V_current), %s" % what)
@@ -1008,7 +1024,83 @@ def body_state(case, ctx):
         check_inversion(inversion(data, nmap), data, nmap, "original-noise-after-derivation")
 
 
+# ---------------------------------------------------------------------------------------------
+# sub-check 7: large baseline counts around round thresholds
+# ---------------------------------------------------------------------------------------------
+def _large_inputs(case):
+    """Deterministic expansion of the compact case: Kronecker (golden-ratio type) sequences for the baselines and
+    trigonometric sequences for the visibilities - closed forms of the index, no RNG."""
+    k = int(case["k"])
+    idx = np.arange(k, dtype=float)
+    fu = np.mod(idx * 0.6180339887498949 + float(case["uv_shift"][0]), 1.0)
+    fv = np.mod(idx * 0.7548776662466927 + float(case["uv_shift"][1]), 1.0)
+    uv = np.stack([(2.0 * fu - 1.0) * float(case["uv_max"][0]), (2.0 * fv - 1.0) * float(case["uv_max"][1])], axis=-1)
+    for j in case.get("zero_rows", []):          # a few exact zero baselines / repeated baselines inside the long list
+        uv[int(j) % k] = 0.0
+    for j_from, j_to in case.get("repeat_rows", []):
+        uv[int(j_to) % k] = uv[int(j_from) % k]
+    vis = np.sin(0.37 * idx + 1.0) * 3.0 + 1j * np.cos(0.91 * idx + 0.5) * 2.0
+    return uv, vis
+
+
+def cases_large(tier):
+    base = {"pixel_scales": [0.3, 0.5], "origin": [0.6, -1.1], "uv_max": [9.0e5, 7.0e5], "uv_shift": [0.11, 0.37],
+            "zero_rows": [5], "repeat_rows": [[7, 70001]]}
+    m1 = [[True, False], [True, True]]
+    m2 = [[False, True, True], [True, True, False]]
+    m3 = [[False, True], [False, False]]
+    i1, i2, i3 = [2.5], [1.5, -2.0], [0.75, -1.25, 3.0]
+    x1, x2, x3 = [[-1.5, 0.25]], [[1.0], [-0.5]], [[2.0, -1.0], [0.0, 0.5], [-3.0, 1.0]]
+    quick = [
+        dict(base, k=131073, mask=m1, image=i1, matrix=x1, preload=True, adjoint_flag=True),
+        dict(base, k=100001, mask=m1, image=i1, matrix=x1, preload=False, adjoint_flag=None),
+    ]
+    if tier == "quick":
+        return quick
+    return quick + [
+        dict(base, k=65535, mask=m2, image=i2, matrix=x2, preload=True, adjoint_flag=False),
+        dict(base, k=65537, mask=m2, image=i2, matrix=x2, preload=True, adjoint_flag=True),
+        dict(base, k=65536, mask=m1, image=i1, matrix=x1, preload=False, adjoint_flag=True),
+        dict(base, k=99999, mask=m2, image=i2, matrix=x2, preload=True, adjoint_flag=None),
+        dict(base, k=100000, mask=m1, image=i1, matrix=x1, preload=True, adjoint_flag=False),
+        dict(base, k=100001, mask=m3, image=i3, matrix=x3, preload=True, adjoint_flag=True),
+        dict(base, k=131073, mask=m2, image=i2, matrix=x2, preload=False, adjoint_flag=False),
+        dict(base, k=262145, mask=m1, image=i1, matrix=x1, preload=True, adjoint_flag=True),
+    ]
+
+
+def body_large(case, ctx):
+    import autoarray as aa
+    m = np.asarray(case["mask"], dtype=bool)
+    uv, vis = _large_inputs(case)
+    k = len(uv)
+    mask = scene.build_mask(case)
+    grid_ref = dft.centres_radians(m, case["pixel_scales"], case["origin"])
+    a = dft.operator(grid_ref, uv)
+    img = np.asarray(case["image"], dtype=float)
+    mm = np.asarray(case["matrix"], dtype=float)
+    preload = bool(case["preload"])
+    path = "preload" if preload else "direct"
+    ctx.label("k=%d" % k, "pixels:%d" % len(img), "path:%s" % path, "adjoint-flag:%s" % case["adjoint_flag"])
+    ctx.nt(k >= 65535)
+    t = aa.TransformerDFT(uv_wavelengths=uv.copy(), real_space_mask=mask, preload_transform=preload)
+    # |phase| <= 2 pi * 1e-5 rad * 1.6e6 ~ 100 rad: float64 cos/sin carry ~1e-14; 1e-12 leaves two orders of margin
+    # and is five orders below the 6e-8 of a float32 table
+    v = np.asarray(t.visibilities_from(image=aa.Array2D(values=img.copy(), mask=mask)))
+    ctx.close(v, a @ img, "large/%s/visibilities_from" % path, atol=1e-12 * (float(np.abs(img).sum()) + FLOOR),
+              what="visibilities_from vs A I, K=%d" % k)
+    g = np.asarray(t.transform_mapping_matrix(mapping_matrix=mm.copy()))
+    ctx.close(g, a @ mm, "large/%s/transform_mapping_matrix" % path,
+              atol=1e-12 * (float(np.abs(mm).sum(axis=0).max(initial=0.0)) + FLOOR), what="transform_mapping_matrix vs A M, K=%d" % k)
+    kw = {} if case["adjoint_flag"] is None else {"use_adjoint_scaling": bool(case["adjoint_flag"])}
+    im = t.image_from(visibilities=aa.Visibilities(visibilities=vis.copy()), **kw)
+    s_vis = float((np.abs(vis.real) + np.abs(vis.imag)).sum()) + FLOOR
+    ctx.close(np.asarray(im.slim), dft.adjoint_real(a, vis), "large/image_from", atol=1e-12 * s_vis,
+              what="image_from(V, %s) vs Re(A^H V), K=%d (%s)" % (kw, k, path))
+
+
 SUBCHECKS = [
+    SubCheck("large", body_large, cases=cases_large, shards={"quick": 2, "thorough": 10}),
     SubCheck("transform", body_transform, strategy=transform_case(),
              examples={"quick": 1800, "thorough": 24000}, shards={"quick": 3, "thorough": 16}),
     SubCheck("matrix", body_matrix, strategy=matrix_case(),
